@@ -211,4 +211,33 @@ def oracle(line, out):
     return None
 
 
+def extra_checks(rng, tier, g, info):
+    """watch-only wallets assembled with the class constructor from a parsed extended public key whose node flag is the
+    parser's default (mainnet) while the wallet is a testnet wallet, and the reverse: every address kind, at several
+    sub-paths, must be the full wallet's address of the wallet's network"""
+    n = 0
+    for _ in range(2 if tier == "quick" else 30):
+        e = bytes(rng.getrandbits(8) for _ in range(16)).hex()
+        for wt in ("1", "0"):
+            full = impl.make_wallet("ent:%s:-:-:%s" % (sx(e), wt))
+            coin = 1 if wt == "1" else 0
+            acc = full.by_path("m/84'/%d'/0'" % coin)
+            name = rng.choice([k for k in PUBV])
+            xpub = acc.extended_public_key(version=PUBV[name])
+            for nt in ("0", "1"):
+                wo = impl.make_wallet("rawx:%s:%s:%s" % (sx(xpub), nt, wt))
+                for sub in ([], [0], [0, 7], [1, 2 ** 31 - 1]):
+                    a = acc.derive_path(sub)
+                    b = wo.master.derive_path(sub)
+                    for kind in KINDS:
+                        n += 1
+                        x, y = impl.addr_fn(full, kind)(a), impl.addr_fn(wo, kind)(b)
+                        if x != y:
+                            yield ("# watch-only wallet BaseWallet(master=PubKeyNode.parse(%s, testnet=%s), testnet=%s), "
+                                   "sub-path %s, %s" % (xpub, nt == "1", wt == "1", sub, kind),
+                                   "%s address differs from the full wallet's: %s vs %s" % (kind, y, x))
+                            return
+    info["constructor_route_addresses"] = n
+
+
 known_match = common.no_known
